@@ -28,7 +28,7 @@ func init() {
 		Phases: func(tier string, seed int64) []Phase {
 			return []Phase{{Name: "upgrades", Race: true, Run: c13Run}}
 		},
-		MinObserved: []string{"sessions_checked", "tls_records_classified", "post_upgrade_requests_compared", "sessions_open_and_idle_at_stop", "upgrades_served_by_the_default_route", "requests_answered_after_think_time", "handshakes_failed_or_abandoned_by_other_sessions", "handshakes_left_pending_while_conforming_sessions_upgrade", "sessions_with_an_answered_request_before_the_upgrade", "rendezvous_inside_the_tunnel_satisfied", "high_volume_sessions_after_upgrade", "plaintext_requests_sent_in_the_same_write_as_starttls", "sessions_whose_first_record_is_not_labelled_3_1", "tunnel_requests_checked_against_the_upgrade_handlers_return", "last_requests_sent_together_with_close_notify", "upgrades_after_a_refused_starttls_request", "upgrades_of_connections_opened_seconds_earlier", "sessions_ended_by_an_unsupported_operation_inside_the_tunnel", "starttls_replies_built_with_the_general_constructor", "streamed_entries_received_while_their_handler_was_waiting", "upgraded_sessions_held_open_on_another_server_of_the_process"},
+		MinObserved: []string{"sessions_checked", "tls_records_classified", "post_upgrade_requests_compared", "sessions_open_and_idle_at_stop", "upgrades_served_by_the_default_route", "requests_answered_after_think_time", "handshakes_failed_or_abandoned_by_other_sessions", "handshakes_left_pending_while_conforming_sessions_upgrade", "sessions_with_an_answered_request_before_the_upgrade", "rendezvous_inside_the_tunnel_satisfied", "high_volume_sessions_after_upgrade", "plaintext_requests_sent_in_the_same_write_as_starttls", "sessions_whose_first_record_is_not_labelled_3_1", "tunnel_requests_checked_against_the_upgrade_handlers_return", "last_requests_sent_together_with_close_notify", "upgrades_after_a_refused_starttls_request", "upgrades_of_connections_opened_seconds_earlier", "sessions_ended_by_an_unsupported_operation_inside_the_tunnel", "starttls_replies_built_with_the_general_constructor", "streamed_entries_received_while_their_handler_was_waiting", "upgraded_sessions_held_open_on_another_server_of_the_process", "upgrades_performed_with_a_renewed_certificate"},
 	})
 }
 
@@ -204,8 +204,12 @@ func (f *firstRecordVersion) Write(p []byte) (int, error) {
 // upgrade path is reported in reasonable time.
 const c13Wait = 12 * time.Second
 
+// c13Renewed is a second, unrelated PKI: what a handler hands to Request.StartTLS after its certificate was renewed.
+var c13Renewed *PKI
+
 func c13Run(c *Ctx) {
 	pki := newPKI()
+	c13Renewed = newPKI()
 	delays := []int{0, 1, 5, 50}
 	var timings []c13Timing
 	for _, a := range delays {
@@ -239,6 +243,7 @@ func c13Timed(c *Ctx, pki *PKI, tm c13Timing, par int, ti int) {
 	// every third timing lets the DEFAULT route perform the upgrade (a mux without an explicit StartTLS route)
 	viaDefault := ti%3 == 2
 	var refuseFirst sync.Map // connection id -> true
+	var renewedFor sync.Map  // connection id -> true: this connection's upgrade is performed with the renewed configuration
 	var upMu sync.Mutex
 	upEnter, upExit := map[int]int64{}, map[int]int64{}
 	upgrade := func(w *gldap.ResponseWriter, r *gldap.Request) {
@@ -270,7 +275,11 @@ func c13Timed(c *Ctx, pki *PKI, tm c13Timing, par int, ti int) {
 			return
 		}
 		time.Sleep(time.Duration(tm.D2) * time.Millisecond)
-		if err := r.StartTLS(pki.ServerOnly); err != nil {
+		cfg := pki.ServerOnly
+		if _, marked := renewedFor.LoadAndDelete(r.ConnectionID()); marked {
+			cfg = c13Renewed.ServerOnly
+		}
+		if err := r.StartTLS(cfg); err != nil {
 			return
 		}
 		time.Sleep(time.Duration(tm.D3) * time.Millisecond)
@@ -331,6 +340,9 @@ func c13Timed(c *Ctx, pki *PKI, tm c13Timing, par int, ti int) {
 				}
 				if name == "cn=refuse-my-first-starttls" {
 					refuseFirst.Store(r.ConnectionID(), true)
+				}
+				if name == "cn=use-the-renewed-certificate" {
+					renewedFor.Store(r.ConnectionID(), true)
 				}
 			}
 		}
@@ -836,6 +848,53 @@ func c13Timed(c *Ctx, pki *PKI, tm c13Timing, par int, ti int) {
 		}(s)
 	}
 	wg.Wait()
+	// the configuration a handler hands to Request.StartTLS is the one the handshake is performed with: after every
+	// other session of this server, two sessions whose handler presents a renewed certificate (another CA altogether)
+	// to clients that trust nothing else - and one more with the old one, to a client that trusts only that
+	if !c.MuteViolations {
+		for k := 0; k < 3; k++ {
+			func() {
+				cn, err := net.Dial("tcp", srv.Addr)
+				if err != nil {
+					return
+				}
+				defer cn.Close()
+				cl := wrapClient(cn)
+				dn, trust, what := "cn=use-the-renewed-certificate", c13Renewed.ClientPlain, "a session whose handler hands a renewed certificate (of another CA) to Request.StartTLS"
+				if k == 2 {
+					dn, trust, what = "cn=x", pki.ClientPlain, "a session whose handler hands the earlier certificate to Request.StartTLS again"
+				}
+				det := map[string]any{"timing": tm, "session": what}
+				cl.Send(sber.Message(1, sber.BindRequest(3, []byte(dn), []byte("p")), nil).Encode())
+				if _, err := cl.ReadMsg(c13Wait); err != nil {
+					return
+				}
+				cl.Send(sber.Message(2, sber.ExtendedRequest([]byte(sber.OIDStartTLS), nil, false), nil).Encode())
+				m, err := cl.ReadMsg(c13Wait)
+				if err != nil || m.ID != 2 {
+					c.Violate("a conforming StartTLS session failed", fmt.Sprintf("%s: no StartTLS response: %v", what, err), det)
+					return
+				}
+				tc := tls.Client(cn, trust)
+				cn.SetDeadline(time.Now().Add(c13Wait))
+				if err := tc.Handshake(); err != nil {
+					c.Violate("a conforming StartTLS session failed", fmt.Sprintf("%s, the client trusts that certificate's CA only: the handshake after the success response failed: %v", what, err), det)
+					return
+				}
+				cn.SetDeadline(time.Time{})
+				tcl := wrapClient(tc)
+				tcl.Send(sber.Message(4, sber.BindRequest(3, []byte("cn=x"), []byte("p")), nil).Encode())
+				if _, err := tcl.ReadMsg(c13Wait); err != nil {
+					c.Violate("request inside the tunnel failed", fmt.Sprintf("%s: %v", what, err), det)
+					return
+				}
+				if k < 2 {
+					c.Count("upgrades_performed_with_a_renewed_certificate", 1)
+				}
+				tc.Close()
+			}()
+		}
+	}
 	// Stop while the held sessions are still open, then let them go
 	stopCh := make(chan struct{})
 	go func() { srv.S.Stop(); close(stopCh) }()
